@@ -45,7 +45,11 @@ def L (x : String) : Str := x.toList
 def addStarFront (s : SStr) : SStr := if s.head? == some .star then s else .star :: s
 def addStarBack (s : SStr) : SStr := if s.getLast? == some .star then s else s ++ [.star]
 
-def hasSpecial (s : SStr) : Bool := s.any (fun p => p == .star || p == .qm)
+def hasWildcard (s : SStr) : Bool := s.any (fun p => p == .star || p == .qm)
+
+/-- wildcards and (still unexpanded) placeholders cannot be encoded -/
+def hasSpecial (s : SStr) : Bool :=
+  s.any (fun p => match p with | .star => true | .qm => true | .ph _ => true | .lit _ => false)
 
 /-- the characters of a string without wildcards/placeholders (`str(val)` as code points) -/
 def plainChars : SStr → List Nat
@@ -234,7 +238,7 @@ def modifyValue (env : Env) (hasField first : Bool) (m : String) (v : Val) : Exc
     | _ => tyErr
   | "fieldref" =>
     match v with
-    | .str _ s => if hasSpecial s then valErr else .ok [.fieldref (toPlain s) false false]
+    | .str _ s => if hasWildcard s then valErr else .ok [.fieldref (toPlain s) false false]
     | _ => tyErr
   | "exists" =>
     match v with
